@@ -173,7 +173,7 @@ func (a *ad) bulk(name string) {
 			x.b.Intersect(y.b)
 		case "Merge":
 			x.b.Merge(y.b)
-		case "CloneToY":
+		case "CloneToY", "CloneToYRaw":
 			// Bits has no Clone of its own: the embedded Bitmap is cloned and the cardinality recounted
 			c := x.b.Bitmap.Clone()
 			nb := setz.Bits{Bitmap: c}
@@ -190,7 +190,7 @@ func (a *ad) bulk(name string) {
 			x.b.Intersect(y.b)
 		case "Merge":
 			x.b.Merge(y.b)
-		case "CloneToY":
+		case "CloneToY", "CloneToYRaw":
 			y.b = x.b.Clone()
 		}
 	case *dszS:
@@ -215,7 +215,7 @@ func (a *ad) bulk(name string) {
 			if y.b.Cap() > 0 {
 				x.b.Grow(uint(y.b.Cap() - 1))
 			}
-		case "CloneToY":
+		case "CloneToY", "CloneToYRaw":
 			var nb dsz.Bits
 			if x.b.Cap() > 0 {
 				nb.Grow(uint(x.b.Cap() - 1))
@@ -245,6 +245,19 @@ func (a *ad) Apply(op core.Op) (interface{}, error) {
 		return []bool{a.x.Contains(uint(core.ArgInt(op, 0)))}, nil
 	case "Grow":
 		a.x.Grow(uint(core.ArgInt(op, 0)))
+		return []int{}, nil
+	case "AddRange", "RemoveRange":
+		lo, hi, n := core.ArgInt(op, 0), core.ArgInt(op, 1), 0
+		for v := lo; v <= hi; v++ {
+			if op.N == "AddRange" && a.x.Add(uint(v)) || op.N == "RemoveRange" && a.x.Remove(uint(v)) {
+				n++
+			}
+		}
+		return []int{n}, nil
+	case "CloneGrowBoth":
+		a.bulk("CloneToYRaw")
+		a.x.Add(uint(core.ArgInt(op, 0)))
+		a.y.Add(uint(core.ArgInt(op, 1)))
 		return []int{}, nil
 	case "IterRemove":
 		return []interface{}{a.x.IterRemove(core.ArgInt(op, 0))}, nil
@@ -292,9 +305,17 @@ func (gen) Next(rng *rand.Rand, step int) core.Op {
 		}
 		return rng.Intn(4200)
 	}
-	switch x := rng.Intn(25); {
+	switch x := rng.Intn(28); {
 	case x == 24:
 		return core.MkOp("IterRemove", rng.Intn(3))
+	case x == 25: // dense stretches: whole words, 32 and more of them
+		lo := 64 * rng.Intn(8)
+		return core.MkOp("AddRange", lo, lo+[]int{7, 63, 64, 255, 2047, 2111}[rng.Intn(6)])
+	case x == 26:
+		lo := 64*rng.Intn(8) + rng.Intn(2)*8
+		return core.MkOp("RemoveRange", lo, lo+[]int{7, 63, 200, 1000}[rng.Intn(4)])
+	case x == 27:
+		return core.MkOp("CloneGrowBoth", 4300+rng.Intn(400), 4800+rng.Intn(400))
 	case x < 7:
 		return core.MkOp("Add", val())
 	case x < 11:
